@@ -305,6 +305,9 @@ def _inline_fixed(expr, fixed):
 
 def _example_fixed(h, ex):
     f = dict(h.fixed)
+    for k, vals in h.cubes.items():          # cube parameters not named by the example take their first value
+        if k not in ex and k not in f and len(vals):
+            f[k] = list(vals)[0]
     return {k: v for k, v in f.items() if k not in ex}
 
 
